@@ -104,19 +104,21 @@ def shards(tier, seed):
                         "regs": {"fraction": 330, "float": 230, "decimal": 70}})
         else:
             out.append({"kind": "helpers", "system": s, "name": f"helpers-{s}-F",
-                        "regs": {"fraction": 17000}})
+                        "regs": {"fraction": 60000}})
             out.append({"kind": "helpers", "system": s, "name": f"helpers-{s}-f",
-                        "regs": {"float": 13000, "decimal": 4000}})
+                        "regs": {"float": 45000, "decimal": 12000}})
     for i, nit in enumerate(("fraction", "float", "decimal") if q else
                             ("fraction", "fraction", "float", "decimal")):
         out.append({"kind": "compact", "nit": nit, "name": f"compact-{nit}-{i}",
-                    "n": 3000 if q else 110000, "sweep": 3 if q else 12})
+                    "n": 3000 if q else 200000, "sweep": 3 if q else 12})
     for i, nit in enumerate(("fraction", "float") if q else ("fraction", "fraction", "float")):
+        slow = 2 if nit == "fraction" else 1         # mip on Fraction coefficients is ~5x slower
         out.append({"kind": "auto", "nit": nit, "name": f"auto-{nit}-{i}",
-                    "n": 900 if q else 45000, "npref": 60 if q else 3000})
+                    "n": 900 if q else 45000, "npref": (60 if q else 3000) // slow})
     for i, nit in enumerate(("fraction", "float") if q else ("fraction", "fraction", "float")):
+        slow = 3 if nit == "fraction" else 1
         out.append({"kind": "preferred", "nit": nit, "name": f"preferred-{nit}-{i}",
-                    "n": 150 if q else 6000})
+                    "n": (180 if q else 6000) // slow})
     return out
 
 
@@ -196,11 +198,46 @@ def units_desc(d):
     return {str(k): str(fexp(v)) for k, v in d.items()}
 
 
+class Fac:
+    """Factor to root units kept overflow-free: exact Fraction part * sgn * 10**log."""
+    __slots__ = ("frac", "log", "sgn", "exact")
+
+    def __init__(self, frac=F(1), log=0.0, sgn=1, exact=True):
+        self.frac, self.log, self.sgn, self.exact = frac, log, sgn, exact
+
+    def times(self, val, e):
+        """self * val**e   (val: refmodel.Val of ONE unit, e: Fraction)"""
+        if val.exact and e.denominator == 1:
+            return Fac(self.frac * F(val.v) ** int(e), self.log, self.sgn, self.exact)
+        v = float(val.v)
+        if v == 0 or v != v or abs(v) == math.inf:
+            raise KeyError("degenerate factor")
+        sg = self.sgn
+        if v < 0:
+            if e.denominator != 1:
+                raise KeyError("fractional power of a negative scale")
+            sg = sg * (-1 if int(e) % 2 else 1)
+        if val.exact and v in (1.0, -1.0):
+            return Fac(self.frac, self.log, sg, self.exact)
+        return Fac(self.frac, self.log + float(e) * math.log10(abs(v)), sg, False)
+
+    def mul(self, other, e=1):
+        return Fac(self.frac * other.frac ** e, self.log + e * other.log, self.sgn * other.sgn,
+                   self.exact and other.exact)
+
+    def sign(self):
+        return self.sgn * sign(self.frac)
+
+    def log10(self):
+        return log10abs(self.frac) + self.log
+
+
 class Oracle:
     def __init__(self, m, R, qmodel):
         self.m, self.R, self.qm = m, R, qmodel
         self._u = {}
         self._cr = {}
+        self._st = {}
         self.dec_by_k = {0: ""}
         self.k_of = {"": 0}
         for pc, p in m.prefixes.items():
@@ -219,8 +256,12 @@ class Oracle:
         self.dec_names = sorted(self.k_of, key=lambda s: -len(s))
         # root units replaced by each system (model reading of the @system rules)
         self.sys_forbidden = {}
+        self.sys_map = {}
+        self.sys_tainted = {}
         for s, sd in m.systems.items():
             bad = set()
+            self.sys_map[s] = {}
+            self.sys_tainted[s] = False
             for rule in sd["rules"]:
                 new = rule[0]
                 try:
@@ -235,9 +276,37 @@ class Oracle:
                     old = next(iter(ru))
                 else:
                     continue
+                self.sys_map[s][old] = new
+                if not m.root_of_spelling(new)[0].exact:
+                    self.sys_tainted[s] = True
                 if not (old == newc and not pref):
                     bad.add(old)
             self.sys_forbidden[s] = bad
+
+    def stress1(self, name):
+        """sum over the whole definition chain of |exponent * log10(scale)| for one spelling."""
+        r = self._st.get(name)
+        if r is None:
+            self._st[name] = 0.0          # cycle guard
+            m = self.m
+            pc, c = m.resolve(self.qm.strip_delta(name))
+            r = abs(log10abs(F(m.prefixes[pc]["value"]))) if pc else 0.0
+            u = m.units[c]
+            if not u["is_base"]:
+                lv = log10abs(u["scale"].v)
+                r += abs(lv) if lv is not None else 0.0
+                for ref, e in u["ref"].items():
+                    r += abs(float(e)) * self.stress1(ref)
+            self._st[name] = r
+        return r
+
+    def stress(self, units):
+        return sum(abs(float(fexp(e))) * self.stress1(n) for n, e in units.items())
+
+    def system_stress(self, system, units):
+        """stress of the destination of to_base_units: root units mapped through the rules."""
+        mp = self.sys_map.get(system, {})
+        return sum(abs(float(e)) * self.stress1(mp.get(r, r)) for r, e in self.root_units(units).items())
 
     def info(self, name):
         """spelling -> (Val factor to root, dims); delta_ units by their scale."""
@@ -270,11 +339,11 @@ class Oracle:
     def expand(self, units):
         """{name: exp} -> (Val, dims)."""
         R = self.R
-        f, dm = R.ONE, {}
+        f, dm = Fac(), {}
         for s, e in units.items():
             e = fexp(e)
             pv, rd = self.info(s)[:2]
-            f = R.vmul(f, R.vpow(pv, e))
+            f = f.times(pv, e)
             dm = R.mmul(dm, rd, e)
         return f, dm
 
@@ -324,7 +393,7 @@ def compare(before, after):
     if db != da:
         return Verdict.BAD_DIM, "dims", {"dims_before": str(db), "dims_after": str(da)}
     if fb.exact and fa.exact:
-        a, b = xb * fb.v, xa * fa.v
+        a, b = xb * fb.frac * fb.sgn, xa * fa.frac * fa.sgn
         if eb and ea:
             return (Verdict.OK if a == b else Verdict.BAD_VALUE), "exact", \
                 {"root_before": str(a)[:80], "root_after": str(b)[:80]}
@@ -334,13 +403,13 @@ def compare(before, after):
     # log domain
     parts = []
     for x, f in ((xb, fb), (xa, fa)):
-        lx, lf = log10abs(x), log10abs(f.v)
+        lx, lf = log10abs(x), f.log10()
         if x == 0:
             parts.append((0, None))
             continue
         if lx is None or lf is None:
             return Verdict.UNDECIDED, "log", {}
-        parts.append((sign(x) * sign(f.v), lx + lf))
+        parts.append((sign(x) * f.sign(), lx + lf))
     (sb, lb), (sa, la) = parts
     if sb != sa:
         return Verdict.BAD_VALUE, "log", {"sign_before": sb, "sign_after": sa}
@@ -462,41 +531,64 @@ class Monitor:
         w.update(kw)
         return w
 
-    def extreme(self, x, units):
-        """float overflow plausible inside pint?"""
-        try:
-            f, _ = self.o.expand(units)
-        except Exception:  # noqa: BLE001
+    def floaty(self, x, *unit_dicts):
+        """does pint compute this in floats (or Decimals)?  Only then can range effects occur."""
+        if self.reg != "fraction" or not is_exact_mag(x):
             return True
-        lf = log10abs(f.v)
-        lx = log10abs(tofrac(x)) if not (isnan(nominal(x)) or isinf(nominal(x))) else None
-        worst = 0.0
-        for n, e in units.items():
-            l1 = log10abs(self.o.info(n)[0].v)
-            if l1 is not None:
-                worst += abs(l1 * float(fexp(e)))
-        if lf is None:
+        if self.system and self.o.sys_tainted.get(self.system):
             return True
-        tot = abs(lf) + abs(lx or 0)
-        return max(tot, worst) > 250
+        for d in unit_dicts:
+            for u in d or ():
+                try:
+                    if not self.o.info(u)[0].exact:
+                        return True
+                except KeyError:
+                    return True
+        return False
 
-    def call(self, helper, fn, x, units, **kw):
+    def stressed(self, helper, x, units, runits=None):
+        """Could pint's float accumulator leave the normal float range on the way?
+
+        pint multiplies scale**exponent leaf by leaf through the whole definition chain of the
+        source AND the destination (h**8, m_e**-8, ...); the partial products wander by at most
+        the sum of |exponent * log10(scale)| over all leaves.  Beyond ~1e+-290 they overflow,
+        flush to zero or go denormal (observed: 1.2e-3 relative error with bohr**-8), which is
+        a limit of float arithmetic and not judged here."""
+        o = self.o
+        try:
+            s = o.stress(units)
+            if runits is not None:
+                s += o.stress(runits)
+            elif helper.endswith("base_units") and self.system:
+                s += o.system_stress(self.system, units)
+            elif helper.endswith("root_units"):
+                pass
+            else:
+                s += o.stress(units)
+        except KeyError:
+            return True
+        xn = nominal(x)
+        if not (isnan(xn) or isinf(xn)) and xn != 0:
+            s += abs(log10abs(tofrac(xn)))
+        return s > 290
+
+    def call(self, helper, fn, x, units, extra=None, **kw):
         """run a helper; classify exceptions.  -> (ok, result)"""
         rec = self.rec
         try:
             return True, fn()
         except Exception as ex:  # noqa: BLE001
             name = type(ex).__name__
-            floaty = self.reg != "fraction" or not is_exact_mag(x) or \
-                any(not self.o.info(u)[0].exact for u in units)
-            if name in ("OverflowError", "ZeroDivisionError", "Overflow", "Underflow") and floaty:
-                # float range of pint's own intermediate factors (e.g. scale**exp deep inside a
-                # definition chain): a limit of float arithmetic, not a statement about the helper
+            rangeish = name in ("OverflowError", "ZeroDivisionError", "Overflow", "Underflow") or \
+                (name == "ValueError" and "inf" in repr(ex.args)) or \
+                (name == "InvalidOperation" and self.reg == "decimal")
+            if rangeish and self.floaty(x, units) and self.stressed(helper, x, units):
                 rec.count("skipped_float_range")
-                rec.observe("float_range_errors", f"{helper}:{name}:extreme={self.extreme(x, units)}")
+                rec.observe("float_range_errors", f"{helper}:{name}")
                 return False, None
             shape = kw.pop("shape", None) or self.raise_shape(helper, units, name)
-            rec.violation("helper-raised", self.witness(x, units, error=name, args=repr(ex.args)[:300]),
+            rec.violation("helper-raised", self.witness(x, units, error=name, args=repr(ex.args)[:300],
+                                                        **(extra or {})),
                           **dict(self.fields(helper, "raised", x, units, error=name), shape=shape, **kw))
             return False, None
 
@@ -535,7 +627,7 @@ class Monitor:
         if isnan(rn) or isinf(rn):
             if isnan(xn) or isinf(xn):
                 ok = (isnan(xn) and isnan(rn)) or (isinf(xn) and isinf(rn)
-                                                   and (rn > 0) == ((xn > 0) == (sign(fb.v) * sign(fa.v) > 0)))
+                                                   and (rn > 0) == ((xn > 0) == (fb.sign() * fa.sign() > 0)))
                 if not ok:
                     rec.violation("nonfinite-not-preserved",
                                   self.witness(x, units, result=mag_desc(rm), result_units=units_desc(runits)),
@@ -545,7 +637,7 @@ class Monitor:
                                   **self.fields(helper, "dimension", x, units, **kw))
                 rec.count("value_checks_nonfinite")
                 return ok
-            if self.extreme(x, units) or self.extreme(1, runits):
+            if self.floaty(x, units, runits) and self.stressed(helper, x, units, runits):
                 rec.count("skipped_float_range")
                 return False
             rec.violation("nonfinite-result", self.witness(x, units, result=mag_desc(rm),
@@ -568,12 +660,12 @@ class Monitor:
             rec.count("value_checks_exact")
         else:
             rec.count("value_checks_tolerance")
-        if verdict == Verdict.OK and rn == 0 and xn != 0 and self.reg != "fraction":
-            pass
-        if verdict != Verdict.OK:
-            if mode != "exact" and rn == 0 and (self.extreme(x, units) or self.extreme(1, runits)):
+        if verdict == Verdict.BAD_VALUE:
+            if mode != "exact" and self.floaty(x, units, runits) and self.stressed(helper, x, units, runits):
                 rec.count("skipped_float_range")
+                rec.observe("float_range_errors", f"{helper}:silently-wrong-or-zero")
                 return False
+        if verdict != Verdict.OK:
             mech = "dimension-changed" if verdict == Verdict.BAD_DIM else "value-changed"
             rec.violation(mech, self.witness(x, units, result=mag_desc(rm), result_units=units_desc(runits),
                                              compare=mode, **detail),
@@ -581,6 +673,9 @@ class Monitor:
             return False
         # uncertainty travels with the value
         if hasattr(rm, "std_dev") and hasattr(x, "std_dev") and xn != 0 and rn != 0:
+            if not (1e-140 < abs(rn) < 1e140 and 1e-140 < abs(xn) < 1e140):
+                rec.count("skipped_uncertainty_float_range")     # std_dev squares its terms
+                return True
             a, b = x.std_dev / abs(xn), rm.std_dev / abs(rn)
             if abs(a - b) > 1e-9 * max(a, b):
                 rec.violation("uncertainty-changed", self.witness(x, units, result=mag_desc(rm),
@@ -954,7 +1049,7 @@ def run_compact(spec, rec, rng, pintload, pint, o, names):
             e = 1 if j % 3 else -1
             mon.compact(x, mon.items_of({u: e}), dec, "compact-sweep")
     # (b) decade boundaries on a few plain units
-    for u in ("meter", "second", "gram", "byte", "watt", "radian"):
+    for u in ("meter", "second", "gram", "byte", "watt", "radian")[: 2 if spec["tier"] == "quick" else 6]:
         for d in range(-33, 34):
             for mult in (F(1), F(999999999999, 10 ** 12), F(1000000000001, 10 ** 12), F(9995, 10), F(5)):
                 v = mult * F(10) ** d
@@ -1005,6 +1100,10 @@ def run_auto(spec, rec, rng, pintload, pint, o, names):
     regname = spec["nit"]
     nit = NIT[regname]
     ug = UnitGen(rng, o, names)
+    # the integer programme behind to_preferred can take seconds when the dimension vector has
+    # half-integer entries (Gaussian units): those only in the thorough tier, rarely
+    intdim = [n for n in names if all(v.denominator == 1 for v in o.info(n)[1].values())]
+    ug_int = UnitGen(rng, o, intdim)
     kinds = [k for k in MAG_KINDS[regname] if k != "ufloat"]
     R = o.R
 
@@ -1022,8 +1121,9 @@ def run_auto(spec, rec, rng, pintload, pint, o, names):
         mon = Monitor(rec, spec, o, pint, ureg, regname)
         for i in range(n):
             simple = "preferred" in cname or cname == "auto_both"
-            ua = ug.compound(nmax=2 if simple else 3)
-            ub = ug.partner(ua)
+            g = ug_int if simple else ug
+            ua = g.compound(nmax=2 if simple else 3)
+            ub = g.partner(ua)
             if simple:
                 ub = dict(list(ub.items())[:2])
             x, dx = gen_mag(rng, rng.choice(kinds))
@@ -1042,18 +1142,18 @@ def run_auto(spec, rec, rng, pintload, pint, o, names):
             try:
                 if op == "mul":
                     r = a * b
-                    exp = (X * Y, R.vmul(fa, fb), R.mmul(da, db))
+                    exp = (X * Y, fa.mul(fb), R.mmul(da, db))
                 elif op == "div":
                     r = a / b
-                    exp = (X / Y, R.vmul(fa, R.vpow(fb, F(-1))), R.mmul(da, db, -1))
+                    exp = (X / Y, fa.mul(fb, -1), R.mmul(da, db, -1))
                 elif op == "imul":
                     r = a
                     r *= b
-                    exp = (X * Y, R.vmul(fa, fb), R.mmul(da, db))
+                    exp = (X * Y, fa.mul(fb), R.mmul(da, db))
                 elif op == "idiv":
                     r = a
                     r /= b
-                    exp = (X / Y, R.vmul(fa, R.vpow(fb, F(-1))), R.mmul(da, db, -1))
+                    exp = (X / Y, fa.mul(fb, -1), R.mmul(da, db, -1))
                 elif op == "mulnum":
                     r = a * num
                     exp = (X * N, fa, da)
@@ -1065,14 +1165,15 @@ def run_auto(spec, rec, rng, pintload, pint, o, names):
                     exp = (X / N, fa, da)
                 else:
                     r = num / a
-                    exp = (N / X, R.vpow(fa, F(-1)), R.mscale(da, -1))
+                    exp = (N / X, Fac().mul(fa, -1), R.mscale(da, -1))
             except Exception as ex:  # noqa: BLE001
                 name = type(ex).__name__
                 allu = dict(ua)
                 allu.update(ub)
                 floaty = regname != "fraction" or not (is_exact_mag(x) and is_exact_mag(y)) or \
                     any(not o.info(n)[0].exact for n in allu)
-                if name in ("OverflowError", "ZeroDivisionError", "Overflow", "Underflow") and floaty:
+                if name in ("OverflowError", "ZeroDivisionError", "Overflow", "Underflow") and floaty and \
+                        (mon.stressed("auto", x, allu) or mon.stressed("auto", y, allu)):
                     rec.count("skipped_float_range")
                     continue
                 rec.violation("helper-raised",
@@ -1112,7 +1213,10 @@ def run_auto(spec, rec, rng, pintload, pint, o, names):
                 continue
             rec.count("value_checks_exact" if mode == "exact" else "value_checks_tolerance")
             if verdict != Verdict.OK:
-                if mode != "exact" and rm == 0 and (mon.extreme(x, ua) or mon.extreme(y, ub)):
+                allu = dict(ua)
+                allu.update(ub)
+                if mode != "exact" and mon.floaty(1.0, allu, runits) and \
+                        (mon.stressed("auto", x, allu, runits) or mon.stressed("auto", y, allu, runits)):
                     rec.count("skipped_float_range")
                     continue
                 rec.violation("dimension-changed" if verdict == Verdict.BAD_DIM else "value-changed",
@@ -1153,7 +1257,7 @@ def run_auto(spec, rec, rng, pintload, pint, o, names):
             rec.violation("helper-raised", {"error": repr(ex)[:200]}, helper="auto_preferred", clause="raised",
                           registry=regname, error=type(ex).__name__, op="mul", shape="no-default-preferred-units")
             continue
-        verdict, mode, detail = compare((tofrac(x) * tofrac(y), o.R.vmul(fa, fb), o.R.mmul(da, db), False),
+        verdict, mode, detail = compare((tofrac(x) * tofrac(y), fa.mul(fb), o.R.mmul(da, db), False),
                                         (tofrac(r._magnitude), fr, dr, False))
         rec.count("auto_preferred_unset_checks")
         if verdict in (Verdict.BAD_DIM, Verdict.BAD_VALUE):
@@ -1166,7 +1270,6 @@ def run_preferred(spec, rec, rng, pintload, pint, o, names):
     regname = spec["nit"]
     ureg = pintload.registry(non_int_type=NIT[regname])
     mon = Monitor(rec, spec, o, pint, ureg, regname)
-    ug = UnitGen(rng, o, names)
     kinds = MAG_KINDS[regname]
     U = ureg.Unit
     UC = ureg.UnitsContainer
@@ -1174,8 +1277,19 @@ def run_preferred(spec, rec, rng, pintload, pint, o, names):
     si2 = si + [ureg.ampere]
     imp = [ureg.foot, ureg.slug, ureg.second, ureg.degree_Rankine, ureg.force_pound, ureg.watt]
     # quantities built from units whose dimensions the lists can express
-    common = [n for n in names if set(o.info(n)[1]) <= {"[length]", "[mass]", "[time]", "[current]",
-                                                        "[temperature]"} and o.info(n)[1]]
+    common_all = [n for n in names if set(o.info(n)[1]) <= {"[length]", "[mass]", "[time]", "[current]",
+                                                            "[temperature]"} and o.info(n)[1]]
+    # half-integer dimension exponents (Gaussian units) can keep the integer programme busy for
+    # seconds: kept out of the quick tier
+    common = [n for n in common_all if all(v.denominator == 1 for v in o.info(n)[1].values())]
+    if spec["tier"] != "quick":
+        common = common + [n for n in common_all if n not in common][::3]
+    ug = UnitGen(rng, o, common)
+    pure = {}
+    for n in common:
+        d = o.info(n)[1]
+        if len(d) == 1 and next(iter(d.values())) == 1:
+            pure.setdefault(next(iter(d)), []).append(n)
 
     # 0. the documented no-argument form on a registry that was given no default list
     q = mon.mk(3, {"meter": 1})
@@ -1199,7 +1313,21 @@ def run_preferred(spec, rec, rng, pintload, pint, o, names):
             pname = "random"
             pdesc = [units_desc(d) for d in plist_units]
             # a quantity that shares the dimension set of one of them half of the time
-            if rng.random() < 0.6:
+            r0 = rng.random()
+            if rng.random() < 0.5:
+                # two single-dimension units in the list entry, the same two dimensions with
+                # independent exponents in the quantity
+                (ka, la), (kb, lb) = rng.sample(sorted(pure.items()), 2)
+                plist_units[0] = {rng.choice(la): rng.choice((1, 2, -1, -2)), rng.choice(lb): rng.choice((1, 2, -1, -2))}
+                plist = [U(UC(d)) for d in plist_units]
+                pdesc = [units_desc(d) for d in plist_units]
+                units = {rng.choice(la): rng.choice((1, 2, -1, -2)), rng.choice(lb): rng.choice((1, 2, -1, -2))}
+            elif r0 < 0.35:
+                # same unit names as one preferred unit, fresh exponents: same dimension SET,
+                # usually not proportional
+                d0 = rng.choice(plist_units)
+                units = {n: rng.choice((-2, -1, 1, 2)) for n in d0}
+            elif r0 < 0.7:
                 d0 = rng.choice(plist_units)
                 keys = set()
                 for n in d0:
@@ -1217,8 +1345,18 @@ def run_preferred(spec, rec, rng, pintload, pint, o, names):
                 units = ug.compound(0.2, 3)
         x, dec = gen_mag(rng, rng.choice(kinds))
         q = mon.mk(x, units)
+        shape = {}
+        if pname == "random":
+            shape = {"shape": "random-preferred-list"}
+            dq = o.expand(units)[1]
+            for d in plist_units:
+                dp = o.expand(d)[1]
+                if dq and dp.keys() == dq.keys():
+                    k0 = next(iter(dq))
+                    if any(dp[k] * dq[k0] != dq[k] * dp[k0] for k in dq):
+                        shape = {"shape": "preferred-unit-with-same-dimension-set-but-not-proportional"}
         ok, r = mon.call("to_preferred", lambda: q.to_preferred(plist), x, units, preferred=pname,
-                         **({"shape": "random-preferred-list"} if pname == "random" else {}))
+                         extra={"preferred_units": pdesc}, **shape)
         if not ok:
             if pname == "random":
                 rec.sample({"to_preferred_raised_with": pdesc, "units": units_desc(units)})
